@@ -6,6 +6,7 @@ import (
 
 	"github.com/aperturerobotics/bifrost/crypto"
 	"github.com/aperturerobotics/bifrost/keypem"
+	"github.com/pkg/errors"
 	"github.com/sirupsen/logrus"
 )
 
@@ -34,6 +35,8 @@ func OpenOrWritePrivKey(le *logrus.Entry, privKeyPath string) (crypto.PrivKey, e
 			if le != nil {
 				le.Debug("wrote private key")
 			}
+		} else {
+			return nil, err
 		}
 	} else {
 		dat, err := os.ReadFile(privKeyPath)
@@ -43,6 +46,9 @@ func OpenOrWritePrivKey(le *logrus.Entry, privKeyPath string) (crypto.PrivKey, e
 		privKey, err = keypem.ParsePrivKeyPem(dat)
 		if err != nil {
 			return privKey, err
+		}
+		if privKey == nil {
+			return nil, errors.Errorf("no private key found in pem file: %s", privKeyPath)
 		}
 	}
 	return privKey, err
